@@ -76,8 +76,15 @@ def load_class(repo: Path):
     return cls
 
 
+LOADS = ('LOAD_FAST', 'LOAD_FAST_CHECK')
+
+
 def _is_self(ins) -> bool:
-    return ins is not None and ins.opname == 'LOAD_FAST' and ins.argval == 'self'
+    return ins is not None and ins.opname in LOADS and ins.argval == 'self'
+
+
+def _is_local(ins) -> bool:
+    return ins is not None and ins.opname in LOADS and ins.argval != 'self'
 
 
 def method_skeleton(fn, name: str):
@@ -88,6 +95,7 @@ def method_skeleton(fn, name: str):
     callee_stack: list[str] = []     # pending callables, innermost last
     last_tag = None                  # what the previous instruction left on top of the stack
     iters: list[str] = []            # open iterators, innermost last: 'active' | 'local'
+    with_open: list[str] = []        # `with self._lock` blocks seen so far
 
     def emit(i, acc, detail=''):
         out.append((i.offset, acc, detail))
@@ -135,7 +143,7 @@ def method_skeleton(fn, name: str):
                 else:
                     callee_stack.append('sleep')
                 tag = 'm'
-            elif prev is not None and prev.opname == 'LOAD_FAST' and prev.argval != 'self':
+            elif _is_local(prev):
                 # attribute of a frame-local object
                 if attr == 'is_alive' and is_method:
                     callee_stack.append('is_alive'); tag = 'm'
@@ -164,6 +172,12 @@ def method_skeleton(fn, name: str):
             if i.arg & 1:            # NULL + callable
                 callee_stack.append('local')
             tag = 'global:' + g
+        elif op == 'CALL' and i.arg == 2 and k >= 3 and all(
+                x.opname == 'LOAD_CONST' and x.argval is None for x in ins[k - 3:k]):
+            # `with` exit: __exit__(None, None, None)
+            if not with_open:
+                raise SkeletonError(f'{name}@{i.offset}: __exit__ call without `with self._lock`')
+            emit(i, 'LockRelease')
         elif op == 'CALL':
             if not callee_stack:
                 raise SkeletonError(f'{name}@{i.offset}: CALL of an untracked callable')
@@ -192,13 +206,13 @@ def method_skeleton(fn, name: str):
             if last_tag != 'lock':
                 raise SkeletonError(f'{name}@{i.offset}: `with` on something that is not self._lock')
             emit(i, 'LockAcquire')
-            callee_stack.append('lock.exit')
+            with_open.append('lock')
         elif op == 'WITH_EXCEPT_START':
             emit(i, 'LockRelease')
         elif op == 'GET_ITER':
             if last_tag == 'active':
                 emit(i, 'GetIter'); iters.append('active')
-            elif prev is not None and prev.opname == 'LOAD_FAST' and prev.argval != 'self':
+            elif _is_local(prev):
                 iters.append('local')
             else:
                 raise SkeletonError(f'{name}@{i.offset}: GET_ITER on an untracked value')
@@ -217,11 +231,11 @@ def method_skeleton(fn, name: str):
                 pp is not None and pp.opname == 'LOAD_ATTR' and pp.argval == '_active')
             if shared_operand:
                 if i.argrepr == '-' and pp is not None and pp.opname == 'LOAD_ATTR' and pp.argval == '_active' \
-                        and prev.opname == 'LOAD_FAST' and prev.argval == 'done':
+                        and prev.opname in LOADS and prev.argval == 'done':
                     emit(i, 'SetDiff')
                 else:
                     raise SkeletonError(f'{name}@{i.offset}: BINARY_OP {i.argrepr} on self._active')
-            elif not (prev.opname in ('LOAD_FAST', 'LOAD_CONST')):
+            elif not (prev.opname in LOADS + ('LOAD_CONST',)):
                 raise SkeletonError(f'{name}@{i.offset}: BINARY_OP on untracked operands')
         elif op == 'CONTAINS_OP':
             if last_tag == 'active':
@@ -233,15 +247,15 @@ def method_skeleton(fn, name: str):
                 emit(i, 'TruthActive')
             # a bool / frame-local value otherwise
         elif op in LOCAL_OPS:
-            if last_tag == 'active' and op not in ('LOAD_FAST',):
+            if last_tag == 'active' and op not in LOADS:
                 # the shared set object is consumed by an instruction we do not understand
                 raise SkeletonError(f'{name}@{i.offset}: {op} consumes self._active')
-            if op == 'LOAD_FAST' and last_tag == 'active':
+            if op in LOADS and last_tag == 'active':
                 tag = None  # e.g. `self._active - done`: checked at the BINARY_OP
         else:
             raise SkeletonError(f'{name}@{i.offset}: unknown opcode {op}')
         last_tag = tag
-    if callee_stack and not all(c in ('lock.exit',) for c in callee_stack):
+    if callee_stack:
         raise SkeletonError(f'{name}: unbalanced calls {callee_stack}')
     return out
 
